@@ -575,8 +575,11 @@ func (a *jwtAuthenticator) verifyTokenWithKey(
 
 func (a *jwtAuthenticator) calculateCacheKey(ep *endpoint.Endpoint, renderedURL, reference string) string {
 	digest := sha256.New()
+	// the separator ensures, that the end of the url cannot be confused with the beginning of the
+	// value following it (both depend on the data from the token)
 	digest.Write(ep.Hash())
 	digest.Write(stringx.ToBytes(renderedURL))
+	digest.Write([]byte{0})
 	digest.Write(stringx.ToBytes(reference))
 
 	return hex.EncodeToString(digest.Sum(nil))
